@@ -49,3 +49,57 @@ Proof. repeat split. Qed.
 Lemma gen_gain_shares g c : rs (g_apply_gain_lin g c) = rs c /\ ra (g_apply_gain_lin g c) = ra c /\
                             rn (g_apply_gain_lin g c) = rn c.
 Proof. repeat split. Qed.
+
+(* ------------------------------------------------------------------ element programs
+   g_program_<kind> lists the SpectralInformation primitives the propagate / __call__ body of each element kind applies
+   (extracted from gnpy/core/elements.py on every run); g_variants expands the optional ones.  They are the programs of
+   the model: every variant is accepted by prog_kinds_okb, and for the kinds whose model program is a fixed list the
+   accepted lists are exactly the variants. *)
+From Verif Require Proofs.SI.
+
+Lemma gen_program_roadm : forallb (prog_kinds_okb KRoadm) (g_variants g_program_roadm) = true.
+Proof. reflexivity. Qed.
+Lemma gen_program_fused : forallb (prog_kinds_okb KFused) (g_variants g_program_fused) = true.
+Proof. reflexivity. Qed.
+Lemma gen_program_fiber : forallb (prog_kinds_okb KFiber) (g_variants g_program_fiber) = true.
+Proof. reflexivity. Qed.
+Lemma gen_program_raman : forallb (prog_kinds_okb KRaman) (g_variants g_program_raman) = true.
+Proof. reflexivity. Qed.
+Lemma gen_program_edfa : forallb (prog_kinds_okb KEdfa) (g_variants g_program_edfa) = true.
+Proof. reflexivity. Qed.
+Lemma gen_program_trx : forallb (prog_kinds_okb KTrx) (g_variants g_program_trx) = true.
+Proof. reflexivity. Qed.
+
+Lemma gen_program_fiber_iff l : prog_kinds_okb KFiber l = true <-> In l (g_variants g_program_fiber).
+Proof.
+  cbn. split.
+  - intros H. apply Proofs.SI.kinds_eqb_eq in H. left. symmetry. exact H.
+  - intros [<-|[]]. reflexivity.
+Qed.
+Lemma gen_program_raman_iff l : prog_kinds_okb KRaman l = true <-> In l (g_variants g_program_raman).
+Proof.
+  cbn. split.
+  - intros H. apply Proofs.SI.kinds_eqb_eq in H. left. symmetry. exact H.
+  - intros [<-|[]]. reflexivity.
+Qed.
+Lemma gen_program_edfa_iff l : prog_kinds_okb KEdfa l = true <-> In l (g_variants g_program_edfa).
+Proof.
+  cbn. rewrite Bool.orb_true_iff. split.
+  - intros [H|H]; apply Proofs.SI.kinds_eqb_eq in H; subst l; tauto.
+  - intros [<-|[<-|[]]]; [right|left]; reflexivity.
+Qed.
+Lemma gen_program_trx_iff l : prog_kinds_okb KTrx l = true <-> In l (g_variants g_program_trx).
+Proof.
+  cbn. split.
+  - intros H. apply Proofs.SI.kinds_eqb_eq in H. left. symmetry. exact H.
+  - intros [<-|[]]. reflexivity.
+Qed.
+
+(* hence the clause of C02 for the kind holds of every history of updates that follows the code's program *)
+Lemma source_program_quality k p : forallb (prog_kinds_okb k) (g_variants p) = true ->
+  forall l, In l (g_variants p) -> forall ops c, map ckind_of ops = l -> Inv c -> WfOps c ops ->
+  elem_claim k (crun ops c) c.
+Proof.
+  intros H l Hl ops c Hk Hi Hw. rewrite forallb_forall in H. specialize (H l Hl).
+  apply Proofs.SI.elem_quality; [|exact Hi|exact Hw]. unfold cprog_okb. rewrite Hk. exact H.
+Qed.
